@@ -273,27 +273,22 @@ where
         bit_write: &mut W,
         mut n: u64,
     ) -> Result<(), CopyError<Self::Error, W::Error>> {
-        let from_buffer = Ord::min(n, self.bits_in_buffer as _);
-        self.buffer = self.buffer.rotate_left(from_buffer as _);
-
-        #[allow(unused_mut)]
-        let mut self_buffer_u64: u64 = self.buffer.cast();
-
-        #[cfg(feature = "checks")]
-        {
-            // Clean up in case checks are enabled
-            if n < 64 {
-                self_buffer_u64 &= (1_u64 << n) - 1;
-            }
+        // Copy the bits in the buffer first, at most 64 at a time (the buffer
+        // may hold more than 64 bits when words are 64-bit wide). Reading
+        // them with read_bits keeps the unused part of the buffer zeroed,
+        // as required by refill().
+        let mut from_buffer = Ord::min(n, self.bits_in_buffer as u64) as usize;
+        n -= from_buffer as u64;
+        while from_buffer > 0 {
+            let to_copy = Ord::min(from_buffer, 64);
+            let bits = self.read_bits(to_copy).map_err(CopyError::ReadError)?;
+            bit_write
+                .write_bits(bits, to_copy)
+                .map_err(CopyError::WriteError)?;
+            from_buffer -= to_copy;
         }
 
-        bit_write
-            .write_bits(self_buffer_u64, from_buffer as usize)
-            .map_err(CopyError::WriteError)?;
-        n -= from_buffer;
-
         if n == 0 {
-            self.bits_in_buffer -= from_buffer as usize;
             return Ok(());
         }
 
@@ -321,8 +316,10 @@ where
         bit_write
             .write_bits((new_word >> self.bits_in_buffer).upcast(), n as usize)
             .map_err(CopyError::WriteError)?;
+        // Keep only the bits not copied, in the upper part of the buffer
         self.buffer = UpcastableInto::<BB<WR>>::upcast(new_word)
-            .rotate_right(WR::Word::BITS as u32 - n as u32);
+            << (BB::<WR>::BITS - 1 - self.bits_in_buffer)
+            << 1;
 
         Ok(())
     }
@@ -515,28 +512,22 @@ where
         bit_write: &mut W,
         mut n: u64,
     ) -> Result<(), CopyError<Self::Error, W::Error>> {
-        let from_buffer = Ord::min(n, self.bits_in_buffer as _);
-
-        #[allow(unused_mut)]
-        let mut self_buffer_u64: u64 = self.buffer.cast();
-
-        #[cfg(feature = "checks")]
-        {
-            // Clean up in case checks are enabled
-            if n < 64 {
-                self_buffer_u64 &= (1_u64 << n) - 1;
-            }
+        // Copy the bits in the buffer first, at most 64 at a time (the buffer
+        // may hold more than 64 bits when words are 64-bit wide). Reading
+        // them with read_bits keeps the unused part of the buffer zeroed,
+        // as required by refill().
+        let mut from_buffer = Ord::min(n, self.bits_in_buffer as u64) as usize;
+        n -= from_buffer as u64;
+        while from_buffer > 0 {
+            let to_copy = Ord::min(from_buffer, 64);
+            let bits = self.read_bits(to_copy).map_err(CopyError::ReadError)?;
+            bit_write
+                .write_bits(bits, to_copy)
+                .map_err(CopyError::WriteError)?;
+            from_buffer -= to_copy;
         }
 
-        bit_write
-            .write_bits(self_buffer_u64, from_buffer as usize)
-            .map_err(CopyError::WriteError)?;
-
-        self.buffer >>= from_buffer;
-        n -= from_buffer;
-
         if n == 0 {
-            self.bits_in_buffer -= from_buffer as usize;
             return Ok(());
         }
 
